@@ -42,6 +42,9 @@ pub enum Scenario {
     /// an SZX snapshot (zlib pages, AY/keyboard/mouse chunks) of a program that keeps writing the
     /// screen and the border
     SzxSnap,
+    /// HALT loop in contended RAM that stores R after every wake-up (IM 1): the halted cycles are
+    /// contended M1 fetches, whatever the speed mode
+    HaltContended,
     /// fast load on, a one-block tape playing in real time from the start: it runs to its end
     /// (the deck stops and rewinds itself) around frame 152, around frame 170 the program calls ROM
     /// LD-BYTES: whether the trap fast-loads must not depend on how many calls the 200 frames are cut into
@@ -180,6 +183,22 @@ fn build(sc: Scenario, m128: bool, asset: AssetKind) -> DEmu {
             if sc == Scenario::TapeReal {
                 e.play_tape();
             }
+        }
+        Scenario::HaltContended => {
+            use crate::formats::{sna128, sna48, MState};
+            // at 6000h: EI; loop: HALT; LD A,R; LD (HL),A; INC L; JR loop
+            let code = [0xFBu8, 0x76, 0xED, 0x5F, 0x77, 0x2C, 0x18, 0xF9];
+            let mut st = MState::new(m128, 2);
+            st.port7ffd = 0x10;
+            st.regs.pc = 0x6000;
+            st.regs.sp = 0xBF00;
+            st.regs.hl = 0xA000;
+            st.regs.iff1 = false;
+            st.regs.iff2 = false;
+            st.regs.im = 1;
+            st.banks[5][0x2000..0x2000 + code.len()].copy_from_slice(&code);
+            let f = if m128 { sna128(&st) } else { sna48(&st) };
+            e.load_snapshot(Snapshot::Sna(make_asset(&f, AssetKind::Buffer, "halt"))).ok().expect("load_snapshot");
         }
         Scenario::TapeEndTrap => {
             use crate::formats::{sna128, sna48, MState};
@@ -444,7 +463,7 @@ pub fn run(tier: Tier, seed: u64, replay: Option<String>) -> i32 {
         println!("replay: the recorded case is {}; re-running the whole scenario family", v["case"]);
     }
     let k = if thorough { 12 } else { 6 };
-    let scenarios = [Scenario::RomBoot, Scenario::RomKeys, Scenario::TapeFast, Scenario::TapeReal, Scenario::Tune, Scenario::SzxSnap];
+    let scenarios = [Scenario::RomBoot, Scenario::RomKeys, Scenario::TapeFast, Scenario::TapeReal, Scenario::Tune, Scenario::SzxSnap, Scenario::HaltContended];
     let mut jobs: Vec<(Scenario, bool)> = Vec::new();
     for s in scenarios {
         for m in [false, true] {
@@ -605,7 +624,7 @@ pub fn run(tier: Tier, seed: u64, replay: Option<String>) -> i32 {
     ctx.note("frames", json!(k));
     ctx.note("not_judged", json!("how many frames a Max-mode call emulates (the stopwatch decides); audio when it is not drained every frame or the call spans several frames"));
     ctx.finish(
-        "scenarios {ROM boot, ROM with keys pressed/released at frame boundaries, tape fast load with autoload, real-time tape load, AY/beeper tune snapshot (SNA), screen/border-writing program from an SZX snapshot with zlib pages} x {48K,128K}, plus a program whose call of ROM LD-BYTES reaches the fast-load trap -6..+8 T around the end of a frame (event and frame/call end coincide; compositions of 4 frames, Max mode, breakpoints on the trap), and a 200-frame run in which a playing tape ends inside a call and the fast-load trap is reached later in the same call (calls of 200, 100, 50, 151+49, 1+199 frames); deviations from the default driving: every composition of the K frames into FrameCount(n) calls with the stopwatch always at 0 and always past the limit (each call must emulate exactly n frames), Max mode with every stopwatch reading chosen from {0, limit, limit+1 ns} within a deviation bound, breakpoint stops at subsets of 8 ROM addresses (incl. the fast-load trap address 056B) and at every instruction, sound off, every drain/no-drain pattern, the same file bytes through BufferCursor / chunked reads {1,2,3,127,128,129} / a real file / GzipAsset; at every frame boundary a driving stops at, the digest of registers, all RAM, paging, frame clock, both frame buffers (and audio where comparable) must equal the default driving's digest of that frame; the default is run twice. distinct_nontrivial = drivings executed",
+        "scenarios {ROM boot, ROM with keys pressed/released at frame boundaries, tape fast load with autoload, real-time tape load, AY/beeper tune snapshot (SNA), screen/border-writing program from an SZX snapshot with zlib pages, HALT loop in contended RAM recording R after every interrupt} x {48K,128K}, plus a program whose call of ROM LD-BYTES reaches the fast-load trap -6..+8 T around the end of a frame (event and frame/call end coincide; compositions of 4 frames, Max mode, breakpoints on the trap), and a 200-frame run in which a playing tape ends inside a call and the fast-load trap is reached later in the same call (calls of 200, 100, 50, 151+49, 1+199 frames); deviations from the default driving: every composition of the K frames into FrameCount(n) calls with the stopwatch always at 0 and always past the limit (each call must emulate exactly n frames), Max mode with every stopwatch reading chosen from {0, limit, limit+1 ns} within a deviation bound, breakpoint stops at subsets of 8 ROM addresses (incl. the fast-load trap address 056B) and at every instruction, sound off, every drain/no-drain pattern, the same file bytes through BufferCursor / chunked reads {1,2,3,127,128,129} / a real file / GzipAsset; at every frame boundary a driving stops at, the digest of registers, all RAM, paging, frame clock, both frame buffers (and audio where comparable) must equal the default driving's digest of that frame; the default is run twice. distinct_nontrivial = drivings executed",
         false,
         &["frame boundaries are identified by the hook frame counter", "real file assets live under harness/target/c16-tmp and are unlinked immediately"],
     )
